@@ -82,6 +82,10 @@ def numpy_body(ctx, case):
     rk, cls = _rank_class(B)
     ctx.case(case, nontrivial=n >= 2, classes=["numpy:" + cls, "size=1" if n == 1 else "size>=2"] + (["repeated-pivot"] if case.get("dup") else []))
     tag = "full-rank" if rk == n else "rank-deficient"
+    if thr < 1e-12 * float(np.max(np.abs(M))):
+        # a threshold below the round-off resolution of the matrix itself (eps * max|M|) cannot be met by any float64 routine
+        ctx.count("skipped:threshold-below-roundoff-of-the-input")
+        return
     try:
         L = pyscf_interface.modified_cholesky(M.copy(), thr)
     except Exception as ex:
@@ -165,10 +169,11 @@ def jax_body(ctx, case):
         Mm = (B - h * dB) @ (B - h * dB).T
         fds.append((np.asarray(f(jnp.asarray(Mp))) - np.asarray(f(jnp.asarray(Mm)))) / (2 * h))
     dscale = (float(np.max(np.abs(dM))) + 1e-6 * float(np.max(np.abs(M)))) * cond**2
-    if np.max(np.abs(fds[0] - fds[1])) > 1e-5 * dscale:
+    if np.max(np.abs(fds[0] - fds[1])) > 1e-5 * dscale + 50 * 2.2e-16 * float(np.max(np.abs(M))) * cond**2 / 1e-5:
         ctx.inconclusive("finite-differences-disagree (pivot order changes between +-h)")
         return
-    ctx.check_close("jax:jvp-vs-finite-difference:" + cls, case, "jax: jvp - central difference", tang, fds[1], 1e-5, dscale)
+    fd_noise = 50 * 2.2e-16 * float(np.max(np.abs(M))) * cond**2 / 1e-5  # round-off of the difference quotient at h = 1e-5
+    ctx.check_close("jax:jvp-vs-finite-difference:" + cls, case, "jax: jvp - central difference", tang, fds[1], 1e-5, dscale + fd_noise / 1e-5)
     ctx.check_close("jax:jvp-vs-tangent:" + cls, case, "jax: jvp - dM (identity on rank-r matrices)", tang, dM, 1e-7, dscale)
 
 
